@@ -118,6 +118,9 @@ def own_outcome(tok, f):
     if k == "unp_arg":
         ok = o[0] == "exc" and o[1]["type"] == "PicklingError" and o[1]["cause_type"] == "_RemoteTraceback"
         return ok, "" if ok else f"expected PicklingError with remote traceback, got {o}"
+    if k == "hugearg":
+        ok = o[0] == "exc" and o[1]["type"] == "RuntimeError" and o[1]["cause_type"] == "_RemoteTraceback"
+        return ok, "" if ok else f"expected RuntimeError (task too large to send) with remote traceback, got {o}"
     if k == "struct_arg":
         ok = o[0] == "exc" and o[1]["type"] == "RuntimeError" and o[1]["cause_type"] == "_RemoteTraceback"
         return ok, "" if ok else f"expected RuntimeError with remote traceback, got {o}"
